@@ -24,7 +24,8 @@ SLOTS = ("A", "B", "C")
 DERIVERS = {"copy", "json_roundtrip", "copy_ctor", "copy_mod", "relabel_copy", "subgraph", "enantiomer",
             "reverse", "reactant", "product", "compose", "compose_components"}
 QUERIES = {"has_atom", "has_bond", "n_atoms", "get_atom_type", "get_atom_attr", "get_bond_attr",
-           "bonded_to", "component_of", "get_atom_stereo", "get_bond_stereo",
+           "bonded_to", "component_of", "n_components", "role_bonds", "active_atoms",
+           "get_atom_stereo", "get_bond_stereo",
            "get_atom_stereo_change", "get_bond_stereo_change", "is_stereo_valid",
            "eq_self", "eq_copy", "hash", "str", "to_json", "to_rdmol"}
 
